@@ -69,6 +69,10 @@ dsub, dq, dv = direction('#'), direction('?'), direction('@')
 sk = [tuple(x) for x in d.get('skeleton', [])]
 if sk[:2] != [('strip_prefix', 'pkg:', ''), ('trim_start_matches', '', '/')]: warn(f'scheme / leading-slash handling not recognised: {sk[:2]}')
 if [m for (m, lit, c) in sk if c == '/' and m in ('rsplit_once', 'split_once')] != ['split_once', 'rsplit_once']: warn('type / namespace splits not recognised')
+if d.get('visitor_methods') != ['visit_str'] or d.get('deserialize_call') != ['deserialize_str'] or [list(x) for x in d.get('serialize_call', [])] != [['collect_str', 'self']] \
+        or d.get('visit_str_body') != 'GenericPurl::<T>::from_str(v).map_err(Error::custom)':
+    warn(f"serde impls differ from the modelled ones (Serialize = collect_str(self); Deserialize = deserialize_str + a visitor with visit_str = from_str only): "
+         f"visitor {d.get('visitor_methods')}, deserialize {d.get('deserialize_call')}, serialize {d.get('serialize_call')}, visit_str body {d.get('visit_str_body')!r}", ['C16'])
 if d.get('checksum_key') != ['checksum']: warn(f"Checksum::KEY is {d.get('checksum_key')}", ['C12', 'C04'])
 exp_typed = ['RepositoryUrl', 'DownloadUrl', 'VcsUrl', 'FileName', 'Platform', 'Classifier', 'Type']
 tk = d.get('typed_keys') or []
